@@ -175,6 +175,7 @@ func (s *Service) Update(ctx context.Context, pipelineID string, cfg Config) (*I
 		return nil, err
 	}
 
+	oldConfig, oldUpdatedAt := pl.Config, pl.UpdatedAt
 	delete(s.instanceNames, pl.Config.Name) // delete the old name
 	pl.Config = cfg
 	pl.UpdatedAt = time.Now()
@@ -182,6 +183,10 @@ func (s *Service) Update(ctx context.Context, pipelineID string, cfg Config) (*I
 	s.instanceNames[cfg.Name] = true
 	err = s.store.Set(ctx, pl.ID, pl)
 	if err != nil {
+		// nothing was stored, the in-memory pipeline must not change either
+		delete(s.instanceNames, cfg.Name)
+		s.instanceNames[oldConfig.Name] = true
+		pl.Config, pl.UpdatedAt = oldConfig, oldUpdatedAt
 		return nil, cerrors.Errorf("failed to save pipeline with ID %q: %w", pl.ID, err)
 	}
 
@@ -208,10 +213,13 @@ func (s *Service) UpdateDLQ(ctx context.Context, pipelineID string, cfg DLQ) (*I
 		return nil, cerrors.New("DLQ window nack threshold must be lower than window size")
 	}
 
+	oldDLQ, oldUpdatedAt := pl.DLQ, pl.UpdatedAt
 	pl.DLQ = cfg
 	pl.UpdatedAt = time.Now()
 	err = s.store.Set(ctx, pl.ID, pl)
 	if err != nil {
+		// nothing was stored, the in-memory pipeline must not change either
+		pl.DLQ, pl.UpdatedAt = oldDLQ, oldUpdatedAt
 		return nil, cerrors.Errorf("failed to save pipeline with ID %q: %w", pl.ID, err)
 	}
 
@@ -224,10 +232,13 @@ func (s *Service) AddConnector(ctx context.Context, pipelineID string, connector
 	if err != nil {
 		return nil, err
 	}
+	oldIDs, oldUpdatedAt := pl.ConnectorIDs, pl.UpdatedAt
 	pl.ConnectorIDs = append(pl.ConnectorIDs, connectorID)
 	pl.UpdatedAt = time.Now()
 	err = s.store.Set(ctx, pl.ID, pl)
 	if err != nil {
+		// nothing was stored, the in-memory pipeline must not change either
+		pl.ConnectorIDs, pl.UpdatedAt = oldIDs, oldUpdatedAt
 		return nil, cerrors.Errorf("failed to save pipeline with ID %q: %w", pl.ID, err)
 	}
 
@@ -251,11 +262,19 @@ func (s *Service) RemoveConnector(ctx context.Context, pipelineID string, connec
 		return nil, cerrors.Errorf("%w (ID: %s)", ErrConnectorIDNotFound, connectorID)
 	}
 
-	pl.ConnectorIDs = pl.ConnectorIDs[:connectorIndex+copy(pl.ConnectorIDs[connectorIndex:], pl.ConnectorIDs[connectorIndex+1:])]
+	// build the new list in a new slice, the old one is restored if the store
+	// write fails (and may still be referenced by a caller iterating over it)
+	oldIDs, oldUpdatedAt := pl.ConnectorIDs, pl.UpdatedAt
+	newIDs := make([]string, 0, len(oldIDs)-1)
+	newIDs = append(newIDs, oldIDs[:connectorIndex]...)
+	newIDs = append(newIDs, oldIDs[connectorIndex+1:]...)
+	pl.ConnectorIDs = newIDs
 	pl.UpdatedAt = time.Now()
 
 	err = s.store.Set(ctx, pl.ID, pl)
 	if err != nil {
+		// nothing was stored, the in-memory pipeline must not change either
+		pl.ConnectorIDs, pl.UpdatedAt = oldIDs, oldUpdatedAt
 		return nil, cerrors.Errorf("failed to save pipeline with ID %q: %w", pl.ID, err)
 	}
 
@@ -268,10 +287,13 @@ func (s *Service) AddProcessor(ctx context.Context, pipelineID string, processor
 	if err != nil {
 		return nil, err
 	}
+	oldIDs, oldUpdatedAt := pl.ProcessorIDs, pl.UpdatedAt
 	pl.ProcessorIDs = append(pl.ProcessorIDs, processorID)
 	pl.UpdatedAt = time.Now()
 	err = s.store.Set(ctx, pl.ID, pl)
 	if err != nil {
+		// nothing was stored, the in-memory pipeline must not change either
+		pl.ProcessorIDs, pl.UpdatedAt = oldIDs, oldUpdatedAt
 		return nil, cerrors.Errorf("failed to save pipeline with ID %q: %w", pl.ID, err)
 	}
 
@@ -295,11 +317,19 @@ func (s *Service) RemoveProcessor(ctx context.Context, pipelineID string, proces
 		return nil, cerrors.Errorf("%w (ID: %s)", ErrProcessorIDNotFound, processorID)
 	}
 
-	pl.ProcessorIDs = pl.ProcessorIDs[:processorIndex+copy(pl.ProcessorIDs[processorIndex:], pl.ProcessorIDs[processorIndex+1:])]
+	// build the new list in a new slice, the old one is restored if the store
+	// write fails (and may still be referenced by a caller iterating over it)
+	oldIDs, oldUpdatedAt := pl.ProcessorIDs, pl.UpdatedAt
+	newIDs := make([]string, 0, len(oldIDs)-1)
+	newIDs = append(newIDs, oldIDs[:processorIndex]...)
+	newIDs = append(newIDs, oldIDs[processorIndex+1:]...)
+	pl.ProcessorIDs = newIDs
 	pl.UpdatedAt = time.Now()
 
 	err = s.store.Set(ctx, pl.ID, pl)
 	if err != nil {
+		// nothing was stored, the in-memory pipeline must not change either
+		pl.ProcessorIDs, pl.UpdatedAt = oldIDs, oldUpdatedAt
 		return nil, cerrors.Errorf("failed to save pipeline with ID %q: %w", pl.ID, err)
 	}
 
